@@ -184,6 +184,7 @@ func genROCase(rt *rapid.T) *roCase {
 	// one shared tree in two (where the variant has a suitable leafref) is not valid: a leafref leaf points at nothing, so every Validate of it takes
 	// the error-reporting paths (and fails the same way in every goroutine)
 	if rapid.Bool().Draw(rt, "dangling") {
+		orig := c.M.Clone()
 		var cands []model.Inst
 		empty := rapid.IntRange(0, 2).Draw(rt, "emptyset") > 0
 		for _, in := range model.Instances(c.M, nil, model.InstOpts{}) {
@@ -227,6 +228,11 @@ func genROCase(rt *rapid.T) *roCase {
 				}
 				x.Owner.Leaf[x.F.Name] = old
 			}
+		}
+		// removing the targets of a reference can take most of a small tree with it; such a tree is used
+		// as generated instead
+		if leafCount(c.M) < 20 && leafCount(orig) >= 20 {
+			c.M, c.Dangling, c.EmptySet = orig, false, false
 		}
 	}
 	c.Procs = rapid.SampledFrom([]int{1, 2, 3, 4, 8, 16}).Draw(rt, "gomaxprocs")
